@@ -462,7 +462,7 @@ int read_fasta( struct in_buffer* b,struct msa** m)
                                         if(seq_ptr->alloc_len == seq_ptr->len){
                                                 resize_msa_seq(seq_ptr);
                                         }
-                                }else if(ispunct((int)line[i])){
+                                }else if(ispunct((int)line[i]) && seq_ptr){
                                         seq_ptr->gaps[seq_ptr->len]++;
                                 }
                         }
